@@ -111,8 +111,10 @@ func Merge(items []*m.Item) *Merged {
 			if _, dup := mg.Directives[it.Name]; dup {
 				if !builtinDirectiveNames[it.Name] {
 					mg.DupDirectives = append(mg.DupDirectives, it)
+					return // the first definition is kept
 				}
-				return // the first definition is kept
+				// a specified directive may be declared again by the user's sources: that declaration is the one the
+				// schema holds (the loader lets the later definition replace the earlier)
 			}
 			mg.Directives[it.Name] = it
 		case !it.Extend:
